@@ -487,6 +487,12 @@ class RestAPI(object):
                     )
                     return aws_error("StateMachineDoesNotExist"), 400
 
+                """
+                Update a copy, which only replaces the stored State Machine once
+                all of the supplied arguments have been validated.
+                """
+                state_machine = dict(state_machine)
+
                 role_arn = params.get("roleArn")
                 if role_arn:
                     if not valid_role_arn(role_arn):
